@@ -84,6 +84,9 @@ def cells(tier, seed):
             if fam != "exact" and (shp not in (SHAPES[1], SHAPES[2], SHAPES[4]) or val == 1):
                 continue
         out.append({"fam": fam, "shape": list(shp), "mb": list(mb), "trb": list(trb), "teb": list(teb), "val": val, "tier": tier})
+        if fam == "exact" and not (mb or trb or teb) and val == 0:
+            # several target vectors for ONE shared set of inputs and hyperparameters (the batch enters through the targets only)
+            out.append({"fam": fam, "shape": list(shp), "mb": [], "trb": [], "teb": [], "val": val, "tier": tier, "yb": [2]})
         if shp[1] == 1 and not (mb or trb or teb) and val == 0:
             # the documented shorthand for d = 1: training and test inputs given as vectors of length n (the library adds the last dimension)
             out.append({"fam": fam, "shape": list(shp), "mb": [], "trb": [], "teb": [], "val": val, "tier": tier, "form": "vec"})
@@ -97,7 +100,7 @@ def make(cell, seed):
     g = util.gen(seed, "c01|" + util.jdump({k: cell[k] for k in ("shape", "trb", "teb")}))
     X = util.rand(g, *trb, n, d)
     t = 2 if fam.startswith("multitask") else None
-    yb = torch.broadcast_shapes(mb, trb)
+    yb = torch.broadcast_shapes(mb, trb, tuple(cell.get("yb", ())))
     y = util.randn(g, *yb, n, t) if t else util.randn(g, *yb, n)
     Xs = util.rand(g, *teb, m, d)
     noise = (0.05 + 0.2 * util.rand(g, *yb, n)) if fam.startswith("fixednoise") else None
